@@ -101,6 +101,45 @@ Definition respond (g : cfg) (cb : bytes) (p : payload) : resp :=
       else plain_handler g None merr
   end.
 
+(* ---- which handler an error value gets: the dispatch of Error() ----
+   An error value as Error() sees it: its dynamic type may be SystemComplexError (a value, not a
+   pointer) or SystemError; otherwise it may have a Code() int method (AppError) and a Status()
+   int method (HTTPStatus); Error() gives its text.  Cause() / Unwrap() methods and whatever they
+   return are not looked at: the kind is decided by the value that was passed in.  The order of
+   the tests is the order in the code. *)
+Record dyn := { d_cplx : option (Z * bytes); d_sys : option Z; d_code : option Z; d_status : option Z; d_text : bytes }.
+
+Definition kind_of (d : dyn) : payload :=
+  match d_cplx d with
+  | Some (c, m) => PCplx c m                        (* err.(SystemComplexError) *)
+  | None =>
+      match d_sys d with
+      | Some c => PSys c                            (* err.(SystemError) *)
+      | None =>
+          match d_code d with
+          | Some c => PApp c (d_text d)             (* err.(AppError) *)
+          | None => PPlain (d_status d) (d_text d)  (* unknown error: status from HTTPStatus, else 500 *)
+          end
+      end
+  end.
+
+(* the error values of the harness: shape 0 SystemComplexError{c, text}; 1 SystemError(c);
+   2 a struct with the methods selected by mask (1 Code() = c, 2 Status() = st, 4 Cause(), 8 Unwrap());
+   3 *SystemComplexError; 4 a struct embedding SystemError; 5 a pointer with Code() = c whose
+   Cause() and Unwrap() return the value itself; wrap <> 0: wrapped by the errors
+   package (Wrap / WithMessage / WithStack), which has neither Code() nor Status() *)
+Definition dyn_of (shape c st : Z) (text : bytes) (mask wrap : Z) : dyn :=
+  let none := {| d_cplx := None; d_sys := None; d_code := None; d_status := None; d_text := text |} in
+  if negb (wrap =? 0) then none
+  else if shape =? 0 then {| d_cplx := Some (c, text); d_sys := None; d_code := None; d_status := None; d_text := text |}
+  else if shape =? 1 then {| d_cplx := None; d_sys := Some c; d_code := None; d_status := None; d_text := text |}
+  else if shape =? 2 then
+    {| d_cplx := None; d_sys := None;
+       d_code := if Z.odd mask then Some c else None;
+       d_status := if Z.odd (mask / 2) then Some st else None; d_text := text |}
+  else if shape =? 5 then {| d_cplx := None; d_sys := None; d_code := Some c; d_status := None; d_text := text |}
+  else none.
+
 (* ---- WriteVersion(w, r, version): "major.minor.revision-extra", every number through
    strconv.Atoi with the error ignored ---- *)
 (* strings.Split(s, sep) for a one-byte separator *)
@@ -229,7 +268,8 @@ Definition body_view (b : abody) (tv jtv : view) : view :=
 (* ---- harness interface ----
    case (payload xcb xserver pid api xmb jtv fx)   fx = (mw dt len ...), see [fetched]     api: which wrapper is called (Data / WriteData / Success,
                                               Error / WriteError / CplxError / WriteCplxError); not modelled apart
-     payload = (0 v xmerr tv) | (1 c) | (2 c xmsg w) | (3 c xmsg hs) | (4 st xmsg tv) | (5 xversion): WriteVersion | (6 st (5 (xkey v)...) xmerr tv): Data with a replaced FilterData   st = -1: no Status()
+     payload = (0 v xmerr tv) | (1 c) | (2 c xmsg w) | (3 c xmsg hs) | (4 st xmsg tv) | (5 xversion): WriteVersion | (6 st (5 (xkey v)...) xmerr tv): Data with a replaced FilterData
+               | (8 shape c st xtext mask cause wrap tv): Error() on an error value with a combination of optional methods   st = -1: no Status()
      v = (0) | (1 b) | (2 bits) | (3 xstr) | (4 v...) | (5 (xkey v)...) | (6 k)
      tv = (0) | (1) | (2) | (3 c): what encoding/json + apiParse make of the text body
    xmb: json.Marshal of the expected envelope object, computed by the harness itself (empty for
@@ -303,6 +343,11 @@ Definition sx_payload (s : sx) : option (payload * view) :=
   | SL [SZ 4; SZ st; SB msg; tv] =>
       match sx_view tv with
       | Some t => Some (PPlain (if st <? 0 then None else Some st) msg, t)
+      | None => None
+      end
+  | SL [SZ 8; SZ shape; SZ c; SZ st; SB text; SZ mask; SZ _; SZ wrap; tv] =>
+      match sx_view tv with
+      | Some t => Some (kind_of (dyn_of shape c st text mask wrap), t)
       | None => None
       end
   | SL [SZ 6; SZ st; mm; SB merr; tv] =>
